@@ -126,6 +126,18 @@ func subset(r *Rng, xs []string, min int) []string {
 	return out
 }
 
+// withRepeat: now and then a list names one of its members twice (the schema has no uniqueness
+// rule), the copy right behind the original, so that - unless it was the last - another value follows.
+func withRepeat(r *Rng, xs []string) []string {
+	if len(xs) == 0 || !r.Chance(1, 8) {
+		return xs
+	}
+	i := r.Intn(len(xs))
+	out := append([]string{}, xs[:i+1]...)
+	out = append(out, xs[i])
+	return append(out, xs[i+1:]...)
+}
+
 func genGeneralName(r *Rng, kinds []string) map[string]any {
 	t := Pick(r, kinds)
 	switch t {
@@ -165,7 +177,7 @@ func genExt(r *Rng, kind string, allowKeyDerived bool) ExtSpec {
 			x.Content = rawJSON("!binary:" + b64(r.Bytes(r.Range(1, 20))))
 		}
 	case "keyUsage":
-		x.Content = rawJSON(subset(r, keyUsages, 1))
+		x.Content = rawJSON(withRepeat(r, subset(r, keyUsages, 1)))
 	case "subjectAlternativeName":
 		n := r.Range(1, 3)
 		l := make([]any, n)
@@ -220,7 +232,7 @@ func genExt(r *Rng, kind string, allowKeyDerived bool) ExtSpec {
 			x.Content = rawJSON(map[string]any{"id": "!binary:" + b64(r.Bytes(r.Range(1, 20)))})
 		}
 	case "extendedKeyUsage":
-		x.Content = rawJSON(subset(r, extKeyUsages, 1))
+		x.Content = rawJSON(withRepeat(r, subset(r, extKeyUsages, 1)))
 	case "ocspNoCheck":
 		// no content
 	case "admission":
